@@ -141,7 +141,9 @@ pub fn gen(ctx: &mut Ctx) {
         for kind in [Kind::RefFull, Kind::Map, Kind::Slot] {
             for variant in 0..6usize {
                 let w = World { kind, counter_on: true, id_len: 16, hm: Hm::None, preload: vec![] };
-                let mut steps = vec![cstep(COp::Reg(simple_reg(ctx, site, Some("example.com"))))];
+                // a selection member with every attachment preference (the challenge's first byte picks it)
+                let with_sel = |ctx: &mut Ctx| { let mut r = simple_reg(ctx, site, Some("example.com")); r.sel = Some(Sel { rk: None, rrk: false, uv: UvR::Preferred }); r };
+                let mut steps = vec![cstep(COp::Reg(with_sel(ctx))), cstep(COp::Reg(with_sel(ctx))), cstep(COp::Reg(with_sel(ctx)))];
                 let mut r = simple_reg(ctx, site, Some("example.com"));
                 let mut a = simple_auth(ctx, site, Some("example.com")); a.allow_last = true;
                 let (mut sr, mut sa) = (cstep(COp::Reg(r.clone())), cstep(COp::Auth(a.clone())));
